@@ -53,3 +53,8 @@ CASES += [
     dict(id='c07-last-line-dropped-good', prop='C07', file='src/library/prog_args/handler.cpp', expect='R5',
          old="   while (std::getline( progArgs, line))", new="   while (std::getline( progArgs, line).good())"),
 ]
+
+CASES += [
+    dict(id='c07-orig-subgroup-read-mode', prop='C07', file='src/library/prog_args/handler.cpp', expect='R6',
+         old="      subArgHandler->mReadMode = mReadMode;\n", new=""),
+]
